@@ -6,6 +6,7 @@ import time
 import traceback
 
 VERIF = os.path.dirname(os.path.dirname(os.path.abspath(__file__)))
+OUT = os.path.abspath(os.environ.get("VERIF_OUT") or VERIF)
 sys.path.insert(0, os.path.join(VERIF, "lib"))
 import tlc as _tlc  # noqa: E402
 
@@ -37,7 +38,7 @@ class Ctx:
         self.actions_cov = {}
         self.findings = self._load_findings()
         import glob
-        for old in glob.glob(os.path.join(VERIF, "replays", "%s_*.json" % pid)):
+        for old in glob.glob(os.path.join(OUT, "replays", "%s_*.json" % pid)):
             try:
                 os.remove(old)
             except OSError:
@@ -118,7 +119,7 @@ class Ctx:
                 print("KNOWN-FINDING: property=%s %s :: %s" % (self.pid, key, f.get("what", "")),
                       flush=True)
             return False
-        path = os.path.join(VERIF, "replays", "%s_%d.json" % (self.pid, len(self.violations)))
+        path = os.path.join(OUT, "replays", "%s_%d.json" % (self.pid, len(self.violations)))
         try:
             os.makedirs(os.path.dirname(path), exist_ok=True)
             with open(path, "w") as fh:
@@ -156,7 +157,7 @@ class Ctx:
               "assumptions": self.assumptions,
               "wall_s": round(time.time() - self.t0, 2),
               "violations": len(self.violations)}
-        d = os.path.join(VERIF, "evidence")
+        d = os.path.join(OUT, "evidence")
         os.makedirs(d, exist_ok=True)
         tmp = os.path.join(d, self.pid + ".json.tmp")
         with open(tmp, "w") as fh:
